@@ -1144,6 +1144,11 @@ def gen_multi(rng, extra=None):
     use_template = rng.random() < 0.6
     if use_template:
         md['templates'].append(G.gen_case(rng, prof))
+        if rng.random() < 0.6:
+            # a guess on the TEMPLATE, written in the template's own time: every instance must evaluate it on its own time grid
+            td0 = md['templates'][0]
+            i0 = rng.randrange(len(td0['states']))
+            td0['initial_list'] = [('x', i0, ('expr', [('+', ('*', E.C(G.coef(rng)), ('t',)), E.C(G.coef(rng))) for _r in range(td0['states'][i0])]))]
     for i in range(n):
         if use_template and (i < 2 and rng.random() < 0.8):
             td = md['templates'][0]
@@ -1376,6 +1381,16 @@ def build_multi(md, transcribe=True):
                 b = B.build(sd['desc'], stage_factory=ocp.stage)
             mb.bs.append(b)
         mb.fp_after_clone = [stage_fingerprint(tb.ocp) for tb in mb.templates]
+        # every child gets ITS OWN values for its global parameters, assigned after all children exist (instances of one template
+        # must not share a value store)
+        mb.child_pvals = []
+        for i, b in enumerate(mb.bs):
+            vals = []
+            for j, q in enumerate(b.params['']):
+                v = ca.DM([0.25 * (1 + i) + 0.5 * j + 0.125 * r for r in range(q.numel())])
+                b.ocp.set_value(q, v)
+                vals += [float(x_) for x_ in v.full().flatten()]
+            mb.child_pvals.append(vals)
         mb.pv = [ocp.variable() for _ in range(md['pvars'])]
         mb.pp = [ocp.parameter() for _ in range(md.get('pparams', 0))]
         for q in mb.pp:
@@ -1600,6 +1615,67 @@ class C12(Check):
                 got = [v[0] for v in mb.Wpp([xv, pcur])[0]]
                 if any(g != Fr(3, 2) for g in got):
                     msg = "ocp.value(q) of the parent's own parameter q (set to 1.5) evaluates to %s at a random decision vector" % [float(g) for g in got]
+            if msg is None:
+                # every child's own parameters read back the values given to THAT child
+                import casadi as ca
+                with B.quiet():
+                    pcur = [Fr(v) for v in ca.DM(mb.opti.debug.value(mb.opti.p, mb.opti.initial())).full().flatten().tolist()]
+                for i, b in enumerate(mb.bs):
+                    if not mb.child_pvals[i] or 'P' not in getattr(b, 'phys_names', []):
+                        continue
+                    try:
+                        xv = [rnd(self.rng) for _ in range(mb.nx_opti)]
+                        fv = [rnd(self.rng) for _ in range(sum(s_.numel() for s_ in b.free))] if b.free else None
+                        got = [float(v) for v in B.eval_phys(b, xv, pcur, fv)['P'][0]]
+                    except (ZeroDivisionError, OverflowError, KeyError):
+                        continue
+                    self.count("child-parameter-values-read-back")
+                    if len(got) != len(mb.child_pvals[i]) or any(abs(a - w) > 1e-12 for a, w in zip(got, mb.child_pvals[i])):
+                        msg = "the parameters of child stage %d (%s) read back %s, the values given to that child are %s" % (
+                            i, "instance of template %d" % md['stages'][i]['clone_of'] if md['stages'][i].get('clone_of') is not None else "declared directly",
+                            got, mb.child_pvals[i])
+                        break
+            if msg is None:
+                # an instance of a template starts where the same stage declared directly starts (guesses of the template included)
+                import casadi as ca
+                for i, b in enumerate(mb.bs):
+                    sd = md['stages'][i]
+                    if sd.get('clone_of') is None or not sd['desc'].get('initial_list'):
+                        continue
+                    try:
+                        with B.quiet():
+                            x0m = [Fr(v) for v in ca.DM(mb.opti.debug.value(mb.opti.x, mb.opti.initial())).full().flatten().tolist()]
+                            pm = [Fr(v) for v in ca.DM(mb.opti.debug.value(mb.opti.p, mb.opti.initial())).full().flatten().tolist()]
+                        def free_start(bb, opti_):
+                            # a declared variable that is in neither f nor g has no slot in opti.x; Opti still stores its starting value
+                            if not bb.free:
+                                return None
+                            out_ = []
+                            with B.quiet():
+                                for s_ in bb.free:
+                                    out_ += [Fr(v) for v in ca.DM(opti_.debug.value(s_, opti_.initial())).full().flatten(order='F').tolist()]
+                            return out_
+                        fvm = free_start(b, mb.opti)
+                        Xm = B.eval_phys(b, x0m, pm, fvm)['X']
+                        dt_ = copy.deepcopy(sd['desc'])
+                        dt_['param_values'] = {('', j): ca.DM([0.25 * (1 + i) + 0.5 * j + 0.125 * r for r in range(sz)]) for j, sz in enumerate(dt_['params'][''])}
+                        bt = B.build(dt_)
+                        with B.quiet():
+                            x0t = [Fr(v) for v in ca.DM(bt.opti.debug.value(bt.opti.x, bt.opti.initial())).full().flatten().tolist()]
+                            pt = [Fr(v) for v in ca.DM(bt.opti.debug.value(bt.opti.p, bt.opti.initial())).full().flatten().tolist()]
+                        fvt = free_start(bt, bt.opti)
+                        Xt = B.eval_phys(bt, x0t, pt, fvt)['X']
+                    except (ZeroDivisionError, OverflowError, KeyError):
+                        continue
+                    self.count("instance-start-vs-direct-declaration")
+                    a_ = [float(v) for col in Xm for v in col]
+                    b__ = [float(v) for col in Xt for v in col]
+                    if sd['desc']['method']['kind'] == 'ss':
+                        n0 = sum(sd['desc']['states'])
+                        a_, b__ = a_[:n0], b__[:n0]
+                    if len(a_) != len(b__) or any(abs(u_ - v_) > 1e-9 * max(1.0, abs(v_)) for u_, v_ in zip(a_, b__)):
+                        msg = "child stage %d (an instance of a template with a guess written in the template's time) starts its states at %s, the same stage declared directly at %s" % (i, a_, b__)
+                        break
             if msg is None and problems:
                 kind, det = problems[0]
                 msg = ("multi-stage objective is not the parent's objective plus the children's: %s" % det) if kind == 'objective' else \
@@ -3056,7 +3132,7 @@ EXPECTED_ORDER = {'rk': 4, 'expl_euler': 1}
 class C03(Check):
     pid = "C03"
     uses_generated = True
-    slices = ["shooting-order", "collocation-order", "builtin-integrators", "sys_simulator"]
+    slices = ["shooting-order", "collocation-order", "builtin-integrators", "sys_simulator", "interval-parameters"]
 
     def explanation(self):
         return ("PARTIAL. theorems: intg_rk is the Runge-Kutta method with the classical tableau, which satisfies all eight order conditions up to "
@@ -3071,8 +3147,81 @@ class C03(Check):
                 "collocation radau 2d-1 / legendre 2d (d = 1..3, index-1 DAE included), errors decreasing; cvodes / collocation / idas within "
                 "tolerance with t0 != 0 and explicit time dependence; sys_simulator and discrete_system give the same flow")
 
+    def interval_parameter_slice(self):
+        """the flow implied by a TRANSCRIPTION (not only by discrete_system) for every parameter value: global, per-interval and
+        per-interval-with-final-node parameters all enter the right-hand side and the integrand with values that differ between intervals;
+        the end state and ocp.integral of the solved (square) problem approach the piecewise reference as M grows"""
+        import casadi as ca
+        import numpy as np
+        from scipy.integrate import solve_ivp
+        rockit = B.import_rockit()
+        name = "interval-parameters"
+        n = 3 if self.tier == 'quick' else 24
+        rng = self.rng
+        for it in range(n):
+            meth = ['ms', 'dc', 'ss'][it % 3]
+            N = 2
+            t0, T = rng.choice([0.5, -0.25, 1.0]), rng.choice([1.0, 1.5])
+            x0 = rng.randint(-4, 4) / 4.0
+            pg = rng.randint(1, 6) / 4.0
+            av = [rng.randint(1, 8) / 4.0 for _ in range(N)]
+            bv = [rng.randint(-8, 8) / 4.0 for _ in range(N + 1)]
+            if av[0] == av[1]:
+                av[1] += 0.75
+            if bv[0] == bv[1]:
+                bv[1] -= 1.25
+            info = {"method": meth, "t0": t0, "T": T, "x0": x0, "p": pg, "a": av, "b": bv}
+
+            def flow(M):
+                with B.quiet():
+                    ocp = rockit.Ocp(t0=t0, T=T)
+                    x = ocp.state()
+                    a = ocp.parameter(grid='control')
+                    b_ = ocp.parameter(grid='control', include_last=True)
+                    pp = ocp.parameter()
+                    ocp.set_der(x, -a * x + b_ * ca.sin(x) + pp * ocp.t)
+                    ocp.add_objective(ocp.integral(a * x ** 2 + b_ * ocp.t))
+                    ocp.subject_to(ocp.at_t0(x) == x0)
+                    ocp.set_value(a, ca.DM([av])); ocp.set_value(b_, ca.DM([bv])); ocp.set_value(pp, pg)
+                    ocp.set_initial(x, x0)
+                    ocp.method({'ms': rockit.MultipleShooting(N=N, M=M, intg='rk'), 'ss': rockit.SingleShooting(N=N, M=M, intg='rk'),
+                                'dc': rockit.DirectCollocation(N=N, M=M, degree=2, scheme='legendre')}[meth])
+                    ocp.solver('ipopt', {'ipopt.print_level': 0, 'print_time': False, 'ipopt.tol': 1e-13, 'ipopt.sb': 'yes', 'ipopt.max_iter': 200})
+                    try:
+                        sol = ocp.solve()
+                    except Exception:
+                        sol = ocp.non_converged_solution
+                    return float(np.array(sol.sample(x, grid='control')[1]).flatten()[-1]), float(sol.value(ocp.objective))
+            # reference: interval k uses a[k], b[k]
+            y = [x0, 0.0]
+            for k in range(N):
+                ta, tb = t0 + k * T / N, t0 + (k + 1) * T / N
+                r = solve_ivp(lambda t, y_, k=k: [-av[k] * y_[0] + bv[k] * np.sin(y_[0]) + pg * t, av[k] * y_[0] ** 2 + bv[k] * t], (ta, tb), y,
+                              method='DOP853', rtol=1e-13, atol=1e-14)
+                y = [r.y[0, -1], r.y[1, -1]]
+            try:
+                e = []
+                for M in (2, 8):
+                    xf, qf = flow(M)
+                    e.append((abs(xf - y[0]), abs(qf - y[1])))
+            except Exception as ex:
+                self.slice_ok[name] = False
+                self.violation("a problem with per-interval parameters in the dynamics raised %s: %s" % (type(ex).__name__, str(ex)[:200]), {"case": info}, {"kind": "exception", "what": "interval-parameters"})
+                return
+            self.evaluations += 1
+            self.signatures.add("ipar-%d-%s" % (it, meth))
+            self.count("interval-parameters:" + meth)
+            for qi, what in ((0, "state transition"), (1, "ocp.integral")):
+                e2, e8 = e[0][qi], e[1][qi]
+                if e8 > 1e-5 * max(1.0, abs(y[qi])) and not (e8 < 0.3 * e2):
+                    self.slice_ok[name] = False
+                    self.violation("%s with per-interval parameters in the dynamics (%s): error %.3e at M=2 and %.3e at M=8 against the piecewise reference — it does not vanish as M grows"
+                                   % (what, meth, e2, e8), {"case": info, "reference": y}, {"kind": "interval-parameters", "quantity": what, "method": meth})
+                    return
+
     def correspondence(self):
         self.shooting_slice()
+        self.interval_parameter_slice()
         self.collocation_slice()
         self.builtin_slice()
         self.simulator_slice()
